@@ -402,6 +402,10 @@ def printed_value(txt, tag):
     return None
 
 
+# operator names outside the tables of the spec that are multiples of tabulated ones
+OPMAP = {'Sz': ('Sigmaz', 0.5), 'Sx': ('Sigmax', 0.5), 'Sy': ('Sigmay', 0.5)}
+
+
 def dyadic(x):
     """float/complex -> (re, im, k) with x = (re + i im) / 2^k exactly."""
     z = complex(x)
@@ -447,8 +451,14 @@ def graph_case(G, cfg, decls, explicit, ident):
         for keyL, d in G.graph[i].items():
             for keyR, lst in d.items():
                 for opname, strength in lst:
+                    names = []
+                    for nm in opname.split():
+                        nm2, f = OPMAP.get(nm, (nm, 1.0))   # Sz = Sigmaz / 2 etc. (checked in the SITES stage)
+                        strength = strength * f
+                        if nm2 != 'Id':
+                            names.append(nm2)
                     re, im, k = dyadic(strength)
-                    es.append(dict(l=keystr(keyL), r=keystr(keyR), ops=[n for n in opname.split() if n != 'Id'], s=[re, im, k]))
+                    es.append(dict(l=keystr(keyL), r=keystr(keyR), ops=names, s=[re, im, k]))
         edges.append(es)
     # scale: the largest exponent any path through the window can accumulate (longest-path DP over the bonds)
     best = {'IdL': (0, 1.0)}
@@ -505,7 +515,7 @@ def run_trace(ctx, items, name, corrupt=False):
         with open(path, 'w') as f:
             json.dump(cases, f)
         cfgp = tlc.write_cfg(os.path.join(d, 'TraceMPOGraph.cfg'), spec='TraceSpec', invariants=['Done'])
-        res = tlc.run(os.path.join(tlc.SPEC_DIR, 'TraceMPOGraph.tla'), cfgp, workers=1, env=dict(TRACE_FILE=path), timeout=3000)
+        res = tlc.run(os.path.join(tlc.SPEC_DIR, 'TraceMPOGraph.tla'), cfgp, workers=1, env=dict(TRACE_FILE=path), timeout=900)
         tlc.require_clean(res, 'TraceMPOGraph')
         verdict = printed_value(res.stdout, 'TRACE-VERDICT')
         if verdict is None or verdict[1] != len(cases) or res.violated:
@@ -531,9 +541,6 @@ def run_trace(ctx, items, name, corrupt=False):
 # ------------------------------------------------------------------------------------------------
 # predefined models: their add_* calls are recorded by interposition and become the declarations of the spec
 # ------------------------------------------------------------------------------------------------
-OPMAP = {'Sz': ('Sigmaz', 0.5), 'Sx': ('Sigmax', 0.5), 'Sy': ('Sigmay', 0.5)}
-
-
 class DeclRecorder:
     """Wraps CouplingModel.add_onsite / add_coupling / add_multi_coupling / add_exponentially_decaying_coupling /
     add_local_term (outermost calls only) and converts the arguments into declaration records of the spec."""
@@ -705,6 +712,11 @@ def run_site_tables(ctx):
             raise core.MachineryError('could not read the operator tables from TLC')
         ctx.add_mc('C10Tables', res)
         tables, meta = val[1], val[2]
+        spin = hm.make_site('spin', None)
+        for nm, (nm2, f) in OPMAP.items():
+            ctx.case(('c10table', 'opmap', nm), action='C10.site-table')
+            if not np.array_equal(spin.get_op(nm).to_ndarray(), f * spin.get_op(nm2).to_ndarray()):
+                ctx.violation(dict(kind='table', spec='ModelTerms', site='spin', op=nm), dict(op=nm, expected='%s * %s' % (f, nm2)))
         for t in hm.SITE_TYPES:
             site = hm.make_site(t, None)
             for name, tab in tables[t].items():
